@@ -558,6 +558,55 @@ fn run_own(x: &[u64], trace: bool) -> CaseResult {
     res
 }
 
+// ---------------------------------------------------------------- many instances at once, a client that reads late
+
+/// One packet announces k complete instances (two events each) while the client has not read its
+/// channel (capacity 10).  The client is slow but alive: it reads when the daemon waits for it.
+/// Every instance must still be found and resolved.
+fn run_burst(k: u64, trace: bool) -> CaseResult {
+    let mut res = CaseResult::default();
+    let mut w = World::one(lay_v4());
+    w.trace = trace;
+    w.release_when_blocked = true;
+    w.ds[0].h.set_ip_check_interval(0).unwrap();
+    w.poke(0);
+    let rx = w.ds[0].h.browse("_t._tcp.local.").unwrap();
+    let ch = w.add_browse(0, rx);
+    w.ds[0].hold_b.push(ch);
+    w.poke(0);
+    let mut recs = vec![];
+    let mut names = vec![];
+    for j in 0..k {
+        let i = Inst::simple(&format!("burst{j}"), "bursthost", [10, 0, 0, 9]);
+        recs.push(i.ptr(120));
+        recs.push(i.srv(120));
+        recs.push(i.txt(120));
+        names.push(i.fullname());
+    }
+    recs.push(a(&n("bursthost.local"), [10, 0, 0, 9], 120));
+    w.deliver(0, IF0, PEER0, build(&response(recs)));
+    w.advance(1500);
+    w.ds[0].hold_b.clear();
+    w.drain(0);
+    let evs: Vec<BEv> = bevs(&w, 0, ch, 0).into_iter().map(|x| x.1).collect();
+    res.count("bursts_checked", 1);
+    for nm in &names {
+        let f = evs.iter().any(|e| matches!(e, BEv::Found(_, f) if f == nm));
+        let r = evs.iter().any(|e| matches!(e, BEv::Resolved(r) if r.fullname == *nm));
+        if !f || !r {
+            res.viols.push(viol(format!("C04|burst|instance-not-reported-to-a-client-that-reads-late|{}", if !f { "no-ServiceFound" } else { "no-ServiceResolved" }), format!("{k} instances in one packet: {nm} found={f} resolved={r}; {} events received", evs.len())));
+            break;
+        }
+    }
+    if let Some(f) = daemon_fault(&w, 0) {
+        res.viols.push(viol(format!("C04|daemon-fault|{}", panic_sig(&f)), f));
+    }
+    res.nontrivial = true;
+    res.transitions = w.steps;
+    res.outcome = fnv128(format!("{evs:?}").as_bytes());
+    res
+}
+
 pub fn check(tier: &str) -> i32 {
     let mut rep = Report::new("C04", tier, "model_checking");
     let thorough = rep.thorough();
@@ -597,6 +646,16 @@ pub fn check(tier: &str) -> i32 {
     };
     rep.run_part(&po, Duration::from_secs(60));
     rep.require("own-service-through-multicast-loop", "own_service_cases");
+
+    let pb = FnPart {
+        name: "burst-with-a-slow-client".into(),
+        rule: "one packet announcing k in {1, 4, 5, 6, 8, 12, 30} complete instances while the client has not read its channel (capacity 10) and reads only when the daemon waits for it: every instance found and resolved".into(),
+        n: 7,
+        describe: Box::new(|i| format!("k = {}", [1, 4, 5, 6, 8, 12, 30][i as usize])),
+        run: Box::new(|i, tr| run_burst([1, 4, 5, 6, 8, 12, 30][i as usize], tr)),
+    };
+    rep.run_part(&pb, Duration::from_secs(120));
+    rep.require("burst-with-a-slow-client", "bursts_checked");
 
     let perms = permutations4();
     let ldims = [24u64, 4, nshapes, 3];
